@@ -65,7 +65,7 @@ REUSE = {"N2": "N5", "N5": "N7", "N7": "N2", "N10": "N5"}
 
 def space(tier, seed):
     items = list(A.scenarios(tier, NETS, unint_values=(False,)))
-    extra = list(A.inc_scenarios(tier))
+    extra = list(A.inc_scenarios(tier)) + list(A.period_scenarios(tier))
     seen = set()
     for scn in list(items):
         key = (scn["net"], repr(scn["sessions"]))
